@@ -172,3 +172,35 @@ package sql
 //@   callsite Sprintf requires[C06] nid-is-a-top-level-conjunct: litcontains($arg0, "DELETE FROM %s WHERE (%s) AND nid = ?") && litcount($arg0, "?") == 1
 //@   ensures[C06] last-argument-is-the-network-id: err == nil ==> len(args) >= 1 && as(args[len(args) - 1], uuid.UUID) == nid
 //@   loop 1 invariant (isnil(args) || fresh(args)) && (isnil(ors) || fresh(ors))
+
+// ---- C16: the string<->UUID mapping manager. A name's UUID is the version-5 UUID of the
+// name in the network's namespace: newv5 is a function (the same name always gets the same
+// UUID); that it is injective is a property of SHA-1 that no contract here decides.
+//@ ghost newv5(uuid.UUID, string) uuid.UUID
+
+//@ func (*Persister).MapStringsToUUIDsReadOnly
+//@   props C16 C13
+//@   requires p != nil
+//@   modifies nothing
+//@   ensures[C16] position-wise: err == nil && len(uuids) == len(ss) && (forall j in 0..len(ss) :: uuids[j] == newv5(netid(p, ctx), ss[j]))
+//@   ensures fresh(uuids) || isnil(uuids)
+//@   loop 1 invariant len(uuids) == len(ss) && fresh(uuids)
+//@   loop 1 invariant forall j in 0..$n :: uuids[j] == newv5(netid(p, ctx), ss[j])
+
+//@ func (*Persister).MapStringsToUUIDs
+//@   props C16 C13
+//@   requires p != nil && p.d != nil && p.conn != nil && p.conn.Dialect != nil && ctx != nil
+//@   modifies db, wfailed
+//@   ensures[C16] position-wise: err == nil ==> len(uuids) == len(values) && (forall j in 0..len(values) :: uuids[j] == newv5(netid(p, now(ctx)), values[j]))
+//@   loop 1 invariant len(mappings) == len(values) && fresh(mappings) && len(uuids) == len(values) && p != nil
+//@   loop 1 invariant forall j in 0..$n :: mappings[j].ID == uuids[j] && mappings[j].StringRepresentation == values[j]
+//@   loop 1 invariant forall j in 0..len(values) :: uuids[j] == newv5(netid(p, now(ctx)), values[j])
+
+// one (id, string) pair per row, in row order; as many placeholders as arguments
+//@ func buildInsertUUIDs
+//@   props C16 C13
+//@   modifies nothing
+//@   ensures[C16] two-args-per-row: len(args) == 2 * len(values) && (forall j in 0..len(values) :: as(args[2*j], uuid.UUID) == values[j].ID && as(args[2*j+1], string) == values[j].StringRepresentation)
+//@   ensures[C16] placeholders-match-args: qmarks(query) == len(args)
+//@   loop 1 invariant len(args) == 2 * $n && (isnil(args) || fresh(args)) && qmarks(sbc(q)) == 2 * $n
+//@   loop 1 invariant forall j in 0..$n :: as(args[2*j], uuid.UUID) == values[j].ID && as(args[2*j+1], string) == values[j].StringRepresentation
